@@ -4,3 +4,7 @@ import MypyVerif.Props.C02
 import MypyVerif.Props.C04
 import MypyVerif.Props.C09
 import MypyVerif.Props.C07
+import MypyVerif.Props.C12Mro
+import MypyVerif.Props.C12Reach
+import MypyVerif.Props.C12Bind
+import MypyVerif.Props.C12Fold
